@@ -44,4 +44,5 @@ int main(){
   printf("Definition gen_desc_parts : Z := %d%%Z.\n", (int)SCPIDEFINE_DESCRIPTION_MAX_PARTS);
   printf("Definition gen_config : list Z := [%d; %d; %d; %d]%%Z.  (* USE_DEVICE_DEPENDENT_ERROR_INFORMATION USE_MEMORY_ALLOCATION_FREE USE_CUSTOM_DTOSTRE HAVE_STDBOOL *)\n",
          (int)USE_DEVICE_DEPENDENT_ERROR_INFORMATION,(int)USE_MEMORY_ALLOCATION_FREE,(int)USE_CUSTOM_DTOSTRE,(int)HAVE_STDBOOL);
+  printf("Definition gen_native_format : Z := %d%%Z.  (* SCPI_GetNativeFormat(): 1 big endian (NORMAL), 2 little endian (SWAPPED) *)\n", (int)SCPI_GetNativeFormat());
   return 0; }
